@@ -92,7 +92,7 @@ impl Run {
     }
 }
 
-fn cut(s: &str) -> String { s.chars().take(160).collect() }
+fn cut(s: &str) -> String { s.chars().take(400).collect() }
 
 pub fn run_pipeline(src: &str, solve: bool) -> WorkerAnswer {
     let mut run = Run { out: vec![], stdout: std::io::stdout() };
